@@ -36,6 +36,228 @@ ASSUMPTIONS = ['pickle / h5py / text I/O return the numbers that were written (c
                'rounding: model on Float vs numpy doubles compared to 1e-9 relative (grids 1e-12); the +1e-60 of the '
                'Exo-Transmit reader is below the absolute floor']
 
+# ----------------------------------------------------------------------------- source tie (harness/translate_py.py)
+# The pure logic of the CIA readers (taurex/cia/hitrancia.py, picklecia.py, util.find_closest_pair, util.math.interp_lin_only),
+# regenerated as Lean on every run (TaurexModel/Gen/SrcC14.lean) and proved equal to TaurexModel/Loaders.lean / Interp.lean in
+# Props/C14Src.lean.  1-D numpy arrays are lists of numbers, 2-D tables lists of rows, `Tsigma` a list of (T, row) pairs.
+# `total_index`: subscripts of lists are totalised (`getD`, default 0 / [] / (0, [])) as in the hand-written model; the callers
+# only pass indices produced by `searchsorted` / `find_closest_pair` on the same grid.
+_HC = 'taurex/cia/hitrancia.py'
+_PC = 'taurex/cia/picklecia.py'
+_GA = {'self.Tsigma': ('Tsigma', '[(α, [α])]'), 'self.wn': ('wn', '[α]')}
+
+
+def _g(func, **kw):
+    d = dict(module=_HC, cls='HitranCiaGrid', func=func, lean='Grid_' + func, callname='self.' + func, dialect='py',
+             attrs=_GA, params={}, total_index=True)
+    d.update(kw)
+    return d
+
+
+_CA = {'self._temperature_grid': ('temperature_grid', '[α]'), 'self._xsec_grid': ('xsec_grid', '[[α]]')}
+
+
+def _c(mod, cls, pre, func, **kw):
+    d = dict(module=mod, cls=cls, func=func, lean=pre + func, callname='self.' + func, dialect='py', attrs=_CA, params={},
+             total_index=True)
+    d.update(kw)
+    return d
+
+
+def _cia(mod, cls, pre):
+    return [
+        _c(mod, cls, pre, 'temperatureGrid', property=True),
+        _c(mod, cls, pre, 'find_closest_temperature_index', params=dict(temperature='α')),
+        _c(mod, cls, pre, 'interp_linear_grid', params=dict(T='α', t_idx_min='nat', t_idx_max='nat')),
+        _c(mod, cls, pre, 'compute_cia', params=dict(temperature='α')),
+    ]
+
+
+# The opacity cache (taurex/cache/opacitycache.py) against TaurexModel/CacheSM.lean.  O opacity objects (opaque; `moleculeName`),
+# K opacity classes (opaque; `c.discover()` reads the file system and the GlobalCache settings; calling a class MAKES an object
+# and changes the world: the constructor-call log / object identities), A the argument pack `discover()` yields for a file,
+# P paths, I interpolation modes, W the world.  `GlobalCache()[key]` are declared cells (optional: unset keys read as None).
+_OC = 'taurex/cache/opacitycache.py'
+_GC_PATH, _GC_INT, _GC_MEM = ("GlobalCache()['xsec_path']", "GlobalCache()['xsec_interpolation']",
+                              "GlobalCache()['xsec_in_memory']")
+_CTV = {'O': '', 'A': '', 'P': '', 'I': '', 'W': '', 'K': dict(call=('make', ['$A'], '$O'), lean='construct')}
+_CAT = {'self.opacity_dict': ('opacity_dict', '{str: $O}'), _GC_PATH: ('xsec_path', '?$P'), _GC_INT: ('xsec_interp', '?$I'),
+        _GC_MEM: ('xsec_mem', '?bool'), 'KTableCache().opacity_dict': ('ktable_dict', '{str: $O}'),
+        'KTableCache()._opacity_path': ('ktable_opacity_path', '?$P'), "GlobalCache()['ktable_path']": ('ktable_path', '?$P')}
+_CLOG = r'^self\.log\.(debug|info|warning|error|critical)\('
+
+
+def _oc(func, **kw):
+    d = dict(module=_OC, cls='OpacityCache', func=func, lean='OpacityCache_' + func.strip('_'), callname='self.' + func,
+             dialect='py', tvars=_CTV, attrs=_CAT, params={}, world=('w', 'W'), ignore_calls=_CLOG,
+             obj_attrs={'O': {'moleculeName': dict(lean='moleculeName', ty='str')}},
+             obj_methods={'K': {'discover': dict(lean='discover', args=[], ret='[(str, $A)]', world='read',
+                                                 reads=[_GC_PATH, _GC_INT, _GC_MEM])}},
+             externals={'os.path.isdir()': dict(lean='isdir', args=['$P'], ret='bool', world='read')})
+    d.update(kw)
+    return d
+
+
+_CACHE_SPECS = [
+    dict(module='taurex/cache/ktablecache.py', cls='KTableCache', func='clear_cache', lean='KTableCache_clear_cache',
+         callname='KTableCache.clear_cache', dialect='py', tvars=_CTV, params={},
+         attrs={'self.opacity_dict': ('ktable_dict', '{str: $O}'), 'self._opacity_path': ('ktable_opacity_path', '?$P'),
+                "GlobalCache()['ktable_path']": ('ktable_path', '?$P')},
+         state=['self.opacity_dict', 'self._opacity_path']),
+    _oc('clear_cache', state=['self.opacity_dict']),
+    _oc('set_interpolation', params=dict(interpolation_mode='$I'),
+        state=[_GC_INT, 'self.opacity_dict', 'KTableCache().opacity_dict', 'KTableCache()._opacity_path'],
+        calls={'KTableCache().clear_cache': 'KTableCache.clear_cache'}),
+    _oc('set_memory_mode', params=dict(in_memory='bool'), state=[_GC_MEM, 'self.opacity_dict']),
+    _oc('set_opacity_path', params=dict(opacity_path='$P'), state=[_GC_PATH]),
+    _oc('add_opacity', params=dict(opacity='$O', molecule_filter='?[str]'), state=['self.opacity_dict']),
+    _oc('load_opacity_from_path', params=dict(path='?$P', molecule_filter='[str]'), state=['self.opacity_dict'],
+        writes_world=True,
+        # `cf.opacityKlasses` sorted by priority: the list of classes in visiting order is a parameter
+        expr_externals={'sorted(cf.opacityKlasses, key=lambda x: x.priority())': dict(lean='klass_list', ty='[$K]')},
+        # set-up of the class factory; normalisation of the argument pack before `c(*args)` (a non-sequence is passed as the
+        # single argument): the constructor is a function of what discover() yielded either way
+        ignore_stmts=[r'cf = ClassFactory\(\)', r'if not isinstance\(args, \(list, tuple\)\):\s+args = \[args\]']),
+    _oc('load_opacity', params=dict(opacities='unit', opacity_path='unit', molecule_filter='[str]'),
+        state=['self.opacity_dict'], writes_world=True),
+    _oc('__getitem__', params=dict(key='str'), state=['self.opacity_dict'], writes_world=True),
+]
+
+# The assignments of the file readers that turn container contents into the loaded table (unit conversions, axes): the I/O
+# before `start_at` fills the declared cells `self._spec_dict[...]` and is not translated; neither is what follows `stop_at`
+# (resolution, molecule name, min/max bookkeeping).
+_T3, _T4 = '[[[α]]]', '[[[[α]]]]'
+
+
+def _cell(k, ty, pre='f_'):
+    return {"self._spec_dict['%s']" % k: (pre + k, ty)}
+
+
+def _loader(mod, cls, func, lean, cells, state, start, stop, **kw):
+    attrs = {}
+    for c in cells:
+        attrs.update(c)
+    attrs.update({k: (k.replace('self._', ''), t) for k, t in state})
+    d = dict(module=mod, cls=cls, func=func, lean=lean, dialect='py', params=dict(filename='skip'), attrs=attrs,
+             state=[k for k, _ in state], start_at=start, stop_at=stop)
+    d.update(kw)
+    return d
+
+
+_XS = [('self._wavenumber_grid', '[α]'), ('self._temperature_grid', '[α]'), ('self._pressure_grid', '[α]'),
+       ('self._xsec_grid', _T3)]
+_KS = [('self._wavenumber_grid', '[α]'), ('self._ngauss', 'nat'), ('self._temperature_grid', '[α]'),
+       ('self._pressure_grid', '[α]'), ('self._xsec_grid', _T4), ('self._weights', '[α]')]
+_UNIT_EXT = [dict(rx=r"u\.Unit\((?P<a0>\w+)\)\.to\(u\.Pa\)", lean='unit_to_pa', args=['str'], ret='α', raises=True),
+             dict(rx=r"u\.Unit\((?P<a0>\w+), format='cds'\)\.to\(u\.Pa\)", lean='unit_to_pa_cds', args=['str'], ret='α',
+                  raises=True)]
+_UNITS_CELL = {"self._spec_dict['p'].attrs['units']": ('f_p_units', 'str')}
+_LOADER_SPECS = [
+    _loader('taurex/opacity/pickleopacity.py', 'PickleOpacity', '_load_pickle_file', 'PickleOpacity_load',
+            [_cell('wno', '[α]'), _cell('t', '[α]'), _cell('p', '[α]'), _cell('xsecarr', _T3)], _XS,
+            r"self\._wavenumber_grid = self\._spec_dict\['wno'\]", r"self\._xsec_grid = allocate_as_shared\(.*\)",
+            pattern_externals=[dict(rx=r"allocate_as_shared\((?P<a0>.+), logger=self\)", lean='allocate_as_shared',
+                                    args=[_T3], ret=_T3)]),
+    _loader('taurex/opacity/hdf5opacity.py', 'HDF5Opacity', '_load_hdf_file', 'HDF5Opacity_load',
+            [_cell('bin_edges', '[α]'), _cell('t', '[α]'), _cell('p', '[α]'), _cell('xsecarr', _T3), _UNITS_CELL,
+             {'self.in_memory': ('in_memory', 'bool')}], _XS,
+            r"self\._wavenumber_grid = self\._spec_dict\['bin_edges'\]\[:\]", r"if self\.in_memory:\s+self\._xsec_grid = .*",
+            pattern_externals=_UNIT_EXT + [dict(rx=r"allocate_as_shared\((?P<a0>.+), logger=self\)",
+                                                lean='allocate_as_shared', args=[_T3], ret=_T3)]),
+    _loader('taurex/opacity/ktables/picklektable.py', 'PickleKTable', '_load_pickle_file', 'PickleKTable_load',
+            [_cell('bin_centers', '[α]'), _cell('ngauss', 'nat'), _cell('t', '[α]'), _cell('p', '[α]'), _cell('kcoeff', _T4),
+             _cell('weights', '[α]')], _KS,
+            r"self\._wavenumber_grid = self\._spec_dict\['bin_centers'\]", r"self\._weights = self\._spec_dict\['weights'\]"),
+    _loader('taurex/opacity/ktables/hdfktable.py', 'HDF5KTable', '_load_pickle_file', 'HDF5KTable_load',
+            [_cell('bin_centers', '[α]'), _cell('ngauss', 'nat'), _cell('t', '[α]'), _cell('p', '[α]'), _cell('kcoeff', _T4),
+             _cell('weights', '[α]'), _UNITS_CELL, {'self.in_memory': ('in_memory', 'bool')}], _KS,
+            r"self\._wavenumber_grid = self\._spec_dict\['bin_centers'\]\[\.\.\.\]\.astype\(np\.float64\)",
+            r"self\._weights = self\._spec_dict\['weights'\].*", pattern_externals=_UNIT_EXT),
+    _loader('taurex/cia/picklecia.py', 'PickleCIA', '_load_pickle_file', 'PickleCIA_load',
+            [_cell('wno', '[α]'), _cell('t', '[α]'), _cell('xsecarr', '[[α]]')],
+            [('self._wavenumber_grid', '[α]'), ('self._temperature_grid', '[α]'), ('self._xsec_grid', '[[α]]')],
+            r"self\._wavenumber_grid = self\._spec_dict\['wno'\]", r"self\._xsec_grid = self\._spec_dict\['xsecarr'\]"),
+]
+
+# HitranCIA: the grid objects of `_wn_dict` are records (wn, Tsigma) of the class HitranCiaGrid translated above
+_HREC = {'Grid': dict(fields=[('wn', '[α]'), ('Tsigma', '[(α, [α])]')],
+                      methods={'sortTempSigma': 'self.sortTempSigma', 'fill_temperature': 'self.fill_temperature'})}
+_HAT = {'self._wn_dict': ('wn_dict', '{str: rec:Grid}'), 'self._wavenumber_grid': ('wavenumber_grid', '[α]'),
+        'self._temperature_grid': ('temperature_grid', '[α]'), 'self._xsec_grid': ('xsec_grid', '[[α]]')}
+_HITRAN_SPECS = [
+    dict(module=_HC, cls='HitranCIA', func='fill_gaps', lean='HitranCIA_fill_gaps', callname='HitranCIA.fill_gaps', dialect='py', records=_HREC, attrs=_HAT,
+         params=dict(temperature='[α]'), state=['self._wn_dict'], total_index=True),
+    dict(module=_HC, cls='HitranCIA', func='compute_final_grid', lean='HitranCIA_compute_final_grid',
+         callname='HitranCIA.compute_final_grid', dialect='py',
+         records=_HREC, attrs=_HAT, params={}, state=['self._wavenumber_grid', 'self._xsec_grid'], total_index=True,
+         externals={'np.argsort()': dict(lean='np_argsort', args=['[α]'], ret='[nat]')}),
+    # the end of load_hitran_file, after the reading loop has filled `temp_list` and `_wn_dict`
+    dict(module=_HC, cls='HitranCIA', func='load_hitran_file', lean='HitranCIA_load_tail', dialect='py', records=_HREC,
+         attrs=_HAT, params=dict(filename='skip'), free_locals={'temp_list': '[α]'}, start_at=r'temp_list\.sort\(\)',
+         state=['self._temperature_grid', 'self._wn_dict', 'self._wavenumber_grid', 'self._xsec_grid'], total_index=True,
+         externals={'np.argsort()': dict(lean='np_argsort', args=['[α]'], ret='[nat]')},
+         calls={'self.fill_gaps': 'HitranCIA.fill_gaps', 'self.compute_final_grid': 'HitranCIA.compute_final_grid'}),
+]
+
+# Molecule names: which part of the file name (or of the stored name) becomes `moleculeName`, against TaurexModel/Sanitize.lean.
+# `pathlib.Path(x).stem` and `sanitize_molecule_string` (a regular expression) are function parameters.
+_NM = {'self._molecule_name': ('molecule_name', 'str')}
+_STEM = dict(rx=r"pathlib\.Path\((?P<a0>\w+)\)\.stem", lean='path_stem', args=['str'], ret='str')
+_SAN = {'sanitize_molecule_string()': dict(lean='sanitize', args=['str'], ret='str')}
+_SETNAME = r"self\._molecule_name = sanitize_molecule_string\(.*\)"
+_DISC = dict(free_locals={'files': '[str]'}, start_at=r"discovery = \[\]", params=dict(cls='skip'), total_index=True,
+             attrs={"GlobalCache()['xsec_interpolation']": ('xsec_interp', '?str')}, externals=_SAN, pattern_externals=[_STEM])
+
+
+def _names(mod, cls, pre):
+    return [
+        dict(module=mod, cls=cls, func='moleculeName', lean=pre + 'moleculeName', callname='self.moleculeName', dialect='py',
+             attrs=_NM, params={}, property=True),
+        dict(module=mod, cls=cls, func='clean_molecule_name', lean=pre + 'clean_molecule_name', dialect='py', attrs=_NM,
+             params={}, state=['self._molecule_name'], total_index=True),
+    ]
+
+
+_PO, _EX, _PK, _HK = ('taurex/opacity/pickleopacity.py', 'taurex/opacity/exotransmit.py',
+                      'taurex/opacity/ktables/picklektable.py', 'taurex/opacity/ktables/hdfktable.py')
+_NAME_SPECS = _names(_PO, 'PickleOpacity', 'PickleOpacity_') + [
+    dict(module=_PO, cls='PickleOpacity', func='_load_pickle_file', lean='PickleOpacity_name', dialect='py', attrs=_NM,
+         params=dict(filename='str'), state=['self._molecule_name'], total_index=True, externals=_SAN,
+         pattern_externals=[_STEM], start_at=r"splits = pathlib\.Path\(filename\)\.stem\.split\('\.'\)",
+         stop_at=r"self\._molecule_name = mol_name"),
+    dict(module=_PO, cls='PickleOpacity', func='discover', lean='PickleOpacity_discover', dialect='py', **_DISC),
+    dict(module=_EX, cls='ExoTransmitOpacity', func='__init__', lean='ExoTransmit_name', dialect='py', attrs=_NM,
+         params=dict(filename='str', interpolation_mode='skip'), state=['self._molecule_name'], externals=_SAN,
+         pattern_externals=[_STEM], start_at=_SETNAME, stop_at=_SETNAME),
+    dict(module=_EX, cls='ExoTransmitOpacity', func='discover', lean='ExoTransmit_discover', dialect='py', **_DISC),
+] + _names(_HK, 'HDF5KTable', 'HDF5KTable_') + [
+    dict(module=_HK, cls='HDF5KTable', func='__init__', lean='HDF5KTable_name', dialect='py', attrs=_NM,
+         params=dict(filename='str', interpolation_mode='skip', in_memory='skip'), state=['self._molecule_name'],
+         # (the assignment is written twice, before and after super().__init__: the second one is what remains)
+         total_index=True, externals=_SAN, pattern_externals=[_STEM], start_at=(_SETNAME, -1), stop_at=_SETNAME),
+    dict(module=_HK, cls='HDF5KTable', func='discover', lean='HDF5KTable_discover', dialect='py', **_DISC),
+] + _names(_PK, 'PickleKTable', 'PickleKTable_') + [
+    dict(module=_PK, cls='PickleKTable', func='_load_pickle_file', lean='PickleKTable_name', dialect='py',
+         attrs=dict(_NM, **{"self._spec_dict['name']": ('f_name', 'str')}), params=dict(filename='skip'),
+         state=['self._molecule_name'], start_at=r"self\._molecule_name = self\._spec_dict\['name'\]",
+         stop_at=r"self\._molecule_name = self\._spec_dict\['name'\]"),
+    dict(module=_PK, cls='PickleKTable', func='discover', lean='PickleKTable_discover', dialect='py', **_DISC),
+]
+
+SRC_SPECS = [
+    dict(module='taurex/util/math.py', func='interp_lin_only', lean='interp_lin_only',
+         params=dict(x11='elem', x12='elem', P='s', Pmin='s', Pmax='s')),
+    dict(module='taurex/util/util.py', func='find_closest_pair', lean='find_closest_pair', callname='find_closest_pair',
+         dialect='py', params=dict(arr='[α]', value='α')),
+    _g('add_temperature', params=dict(T='α', sigma='[α]'), state=['self.Tsigma']),
+    _g('temperature', property=True),
+    _g('sigma', property=True),
+    _g('find_closest_temperature_index', params=dict(temperature='α')),
+    _g('interp_linear_grid', params=dict(T='α', t_idx_min='nat', t_idx_max='nat')),
+    _g('sortTempSigma', state=['self.Tsigma']),
+    _g('fill_temperature', params=dict(temperatures='[α]'), state=['self.Tsigma']),
+] + _cia(_PC, 'PickleCIA', 'PickleCIA_') + _cia(_HC, 'HitranCIA', 'HitranCIA_') + _CACHE_SPECS + _LOADER_SPECS + _HITRAN_SPECS + _NAME_SPECS
+
 UNITS = {'Pa': 1.0, 'bar': 1e5, 'atm': 101325.0, 'mbar': 100.0, 'kPa': 1000.0, 'hPa': 100.0, 'MPa': 1e6,
          'Torr': 101325.0 / 760.0, 'mmHg': 133.322387415, 'Ba': 0.1}
 MOLS = {'H2O': '1H2-16O', 'CH4': '12C-1H4', 'CO2': '12C-16O2', 'NH3': '14N-1H3', 'HCN': '1H-12C-14N',
@@ -773,6 +995,26 @@ def eval_cia(ctx, c):
                               full, dict(got=bad[1][:12], want=np.asarray(bad[2]).ravel()[:12]))
             if np.any(grids[2] < 0):
                 ctx.violation('cia-negative:' + fmt, 'negative CIA cross-section in the loaded table', full)
+            if fmt == 'cia':
+                # the documented unified table as the Lean specification defines it (Loaders.hitranUnified, proved equal
+                # to the reader's model decHitran by Props/C14.lean:hitran_unified): the Python oracle above must be it,
+                # and so must the table the real reader built
+                toks = [str(len(blocks))]
+                for b in blocks:
+                    toks += [C.F(b['wn0']), C.F(b['wn1']), C.F(b['T']), C.F(b['mx']), str(len(b['pts']))]
+                    for w, s in b['pts']:
+                        toks += [C.F(w), C.F(s)]
+                du = ctx.model().call('c14.hitran_unified', *toks)
+                uwn, ut = du.list(), du.list()
+                ux = du.list(lambda: du.list())
+                cs = dict(small, fmt=fmt)
+                ctx.check_close('documented unified table (oracle) vs hitranUnified.wn', uni['wn'], uwn, cs, rel=1e-12)
+                ctx.check_close('documented unified table (oracle) vs hitranUnified.t', uni['t'], ut, cs, rel=1e-12)
+                ctx.check_close('documented unified table (oracle) vs hitranUnified.x', uni['x'].ravel(), flat(ux), cs,
+                                rel=1e-10, abs_=1e-80)
+                if not bad:
+                    ctx.check_close('HITRAN table loaded by the reader vs hitranUnified.x', grids[2].ravel(), flat(ux), cs,
+                                    rel=1e-10, abs_=1e-80)
             # ---- correspondence: decoder and compute_cia
             for T in c['Ts']:
                 native = flat(o.cia(T))
